@@ -5,7 +5,8 @@ scheduler's hand-offs are invisible to it (uninstrumented TU, raw futex), the wr
 mutex/thread/atomic operations provide the program's genuine edges.
 Pass 2 (sched-asan, post-release scheduling points): a stale access after the hand-over becomes a
 deterministic heap-use-after-free because the application frees every object the moment read()
-returns it."""
+returns it.
+Stage TF adds write sessions whose compression thread ends with an exception (level 10: documented, rejected by zlib)."""
 from checks import schedcheck, sessions as S
 
 ASSUME = [
@@ -27,6 +28,14 @@ def stages(tier):
     st.append(dict(label="T1: ThreadSanitizer, bound 1", harness="h_session", variant="sched-tsan",
                    configs=sess(1, 3 if not quick else 2, t, qs=(1, 2, 10), endings=("close", "destroy")), share=0.3,
                    what="read and write sessions, close after k of n, every single deviation"))
+    # sessions in which a worker fails: level 10 is documented in File.h ("maximum compression") but zlib rejects it inside the
+    # compression thread, which then ends with an exception that close() reports; data smaller than the stream buffer, so
+    # the session still ends.  Only races / memory errors / hangs are checked there (verify=0).
+    failing = [S.cfg("w", objs, 64, c, q, -1, e, 10, 0, bound=b, verify=0, **t)
+               for b in (1, 2) for objs in ([48], [48, 48]) for c in (32, 64, 256) for q in (1, 2) for e in ("close", "destroy")
+               if not (b == 2 and (len(objs) > 1 or c != 64 or quick and q != 2))]
+    st.append(dict(label="TF: ThreadSanitizer, write sessions whose compression thread fails (level 10), bounds 1 and 2", harness="h_session",
+                   variant="sched-tsan", configs=failing, share=0.15))
     st.append(dict(label="T2: ThreadSanitizer, bound 2", harness="h_session", variant="sched-tsan", chunk=1,
                    configs=sess(2, 2, t, cs=(64,) if quick else (32, 64, 65, 256), qs=(2,) if quick else (1, 2), earlies=not quick, **({"sizes": [48]} if quick else {})), share=0.35))
     st.append(dict(label="A1: AddressSanitizer + post-release points, bound 1", harness="h_session", variant="sched-asan",
